@@ -60,7 +60,7 @@ def run(prop, tier):
         paths, metas, lst = F.make_corpus(os.path.join(wd, "corpus"), nf, first=400000, force=["events"])
         # (1)+(2): online monitors on histories (asan flavour) -- c13 profile has save_twice and round trips
         out = os.path.join(wd, "online")
-        hargs = ["--profile", "c13", "--maxops", "30", "--dump-final", "--maxdesc", "255", "--wildpct", "35"]   # 35 % of the histories are wild (size-constructed frames, hostile edits)
+        hargs = ["--profile", "c13", "--maxops", "30", "--dump-final", "--maxdesc", "255", "--wildpct", "35", "--rebuild", "1"]   # 35 % of the histories are wild (size-constructed frames, hostile edits)
         C.run_driver(asan, "hist", nh, out, args=hargs)
         R0 = C.parse_out(out)
         R0.workload = dict(profile="c13", args=hargs, first=0, count=nh)
@@ -195,9 +195,9 @@ def run(prop, tier):
                 viols.append(dict(prop="C14", key="memcheck/" + re.sub(r" of size \d+", "", e).strip().replace(" ", "_")[:40], detail="%s cases %d..%d" % (mode, a, b), case=a))
         cnt = R0.cnt
         cov = dict(evaluations=nh + len(paths) + stats["memcheck_cases"], distinct_nontrivial=len(R0.histsig) + len(set(json.dumps(m.get("shape"), sort_keys=True) for m in metas)),
-                   rule="objects = final states of seeded API histories (35 % wild), objects assembled with the size constructors whose values are never set, and loaded corpus files (all with header events and short labels); each object is saved in 4 fresh processes (ASan fill 0xbe; glibc MALLOC_PERTURB_ 0x00/0x55/0xaa) and the files compared byte for byte; a sample is saved under valgrind memcheck with origin tracking (any uninitialised byte reaching write(2) is a violation); online: snapshot equality around every save and byte equality of two consecutive saves (the second destination pre-filled with longer junk); every loaded file is also saved after other objects in one process (two orders) and compared with its stand-alone save; distinct = distinct history signatures + distinct corpus shapes",
+                   rule="objects = final states of seeded API histories (35 % wild), objects assembled with the size constructors whose values are never set, and loaded corpus files (all with header events and short labels); each object is saved in 4 fresh processes (ASan fill 0xbe; glibc MALLOC_PERTURB_ 0x00/0x55/0xaa) and the files compared byte for byte; a sample is saved under valgrind memcheck with origin tracking (any uninitialised byte reaching write(2) is a violation); online: the final object of every eligible history is rebuilt along another history (fresh object, content of the final snapshot in one pass) and, when snapshot-equal, both are saved and compared byte for byte; snapshot equality around every save and byte equality of two consecutive saves (the second destination pre-filled with longer junk); every loaded file is also saved after other objects in one process (two orders) and compared with its stand-alone save; distinct = distinct history signatures + distinct corpus shapes",
                    samples=R0.samples[:2] + [dict(file=os.path.basename(paths[0]), variants=metas[0]["variants"])],
-                   saves_with_snapshot_equality_checked=cnt.get("c14_purity_checked", 0), double_saves_compared=cnt.get("c14_double_saves", 0),
+                   saves_with_snapshot_equality_checked=cnt.get("c14_purity_checked", 0), equal_objects_built_along_another_history_compared=cnt.get("c14_equal_objects_compared", 0), rebuilds_not_comparable=cnt.get("c14_rebuild_not_equal", 0) + cnt.get("c14_rebuild_failed", 0), double_saves_compared=cnt.get("c14_double_saves", 0),
                    processes_per_object=len(runs), **dict(stats))
         inconc = None
         if stats.get("watchdog_cases", 0) > 3:
